@@ -224,6 +224,9 @@ def run(ctx):
     def one(p):
         lvl, variant, label, pk, sig, m = p
         st, out, err = vc.run_lines(drivers[(lvl, variant)], [vc.verify_line(variant, pk, sig, m)], TIMEOUT_PROBE)
+        if st == "timeout":
+            # a loaded machine must not look like non-termination: a genuine runaway loop (2^31 doublings) also outlives this
+            st, out, err = vc.run_lines(drivers[(lvl, variant)], [vc.verify_line(variant, pk, sig, m)], 12 * TIMEOUT_PROBE)
         return st, (vc.parse_kv(out[0]) if out else {}), err
 
     results = vc.pmap(one, probes)
